@@ -59,6 +59,7 @@ structure WtOK (W : Wt) : Prop where
   ffail : ∀ sid, W.d (.fthrow sid) + W.d (.notify "n:ffail") = 0
   wfail : ∀ sid id, W.d (.wthrow sid id) + W.d (.notify "n:wfail") = 0
   nobt : W.d (.notify "n:nobt") = 0
+  fmterr : W.d (.notify "n:fmterr") = 0
   report : ∀ dr n a, 0 < n → W.d (.notify (reportStr dr n a)) + W.b * (n : Int) = 0
 
 /-! ### the sink path -/
@@ -379,6 +380,7 @@ theorem BalInv.closed (hW : WtOK W) (c : Int) : Closed (BalInv W c) where
   front := fun s f h => by unfold BalInv; rw [applyFront_bal hW]; exact h
   siteCnt := fun s x h => h.lr rfl
   emitInj := fun s a b c d h => by unfold BalInv; rw [bal_emit, hW.inj]; unfold BalInv at h; omega
+  note := fun s h => by unfold BalInv; rw [bal_emit, hW.fmterr]; unfold BalInv at h; omega
   clock := fun s n h => h.lr rfl
   gone := fun s h => h.lr rfl
   refresh := fun s h => h.lr (by unfold refreshCache; split <;> rfl)
